@@ -12,6 +12,7 @@ package main
 import (
 	"fmt"
 	"sync"
+	"sync/atomic"
 	"testing"
 	"testing/synctest"
 	"time"
@@ -40,6 +41,12 @@ type op struct {
 }
 
 type caseSpec struct {
+	// concurrent-delivery stress phase (not a history): the same signed command handed in by
+	// several neighbours at once, many times; replayed by scenario name
+	Scenario   string `json:"scenario,omitempty"`
+	Rounds     int    `json:"rounds,omitempty"`
+	Neighbours int    `json:"neighbours,omitempty"`
+
 	Ops []op   `json:"ops"`
 	Why string `json:"why,omitempty"`
 	Max int    `json:"max_seen_cache_size,omitempty"` // 0 = default 10000
@@ -188,6 +195,65 @@ func runCase(t *testing.T, keys *scx.Keys, cs *caseSpec) (steps []stepObs, acc m
 	return
 }
 
+// stress hands the same genuine signed command to the flooder from several
+// neighbours at the same moment (one goroutine per peer connection, as the
+// peer read loops do), for many commands, in real time. Returns how many
+// commands were accepted more than once / never, and the worst count.
+func stress(keys *scx.Keys, rounds, neighbours int) (twice, never, worst int) {
+	cfg := flood.DefaultFloodConfig()
+	var pub [32]byte
+	copy(pub[:], keys.Pub)
+	cfg.SigningPublicKey = &pub
+	rec := &recorder{peers: []identity.AgentID{scx.ID(1), scx.ID(2), scx.ID(3)}}
+	f := flood.NewFlooder(cfg, scx.ID(0), routing.NewManager(scx.ID(0)), rec)
+	defer f.Stop()
+	ts := uint64(time.Now().Unix())
+	for r := 0; r < rounds; r++ {
+		kind := "sleep"
+		if r%3 == 2 {
+			kind = "wake"
+		}
+		spec := &scx.CmdSpec{Kind: kind, Origin: 10 + r%2, ID: uint64(1000 + r), Sig: "valid", TsAbs: &ts}
+		sl, wk := keys.Sleep(spec, int64(ts)), keys.Wake(spec, int64(ts))
+		var accepted int32
+		var wg sync.WaitGroup
+		start := make(chan struct{})
+		for p := 1; p <= neighbours; p++ {
+			wg.Add(1)
+			go func(p int) {
+				defer wg.Done()
+				// each neighbour forwards its own copy of the frame
+				var ok bool
+				if kind == "wake" {
+					c := *wk
+					<-start
+					ok = f.HandleWakeCommand(scx.ID(p), &c)
+				} else {
+					c := *sl
+					<-start
+					ok = f.HandleSleepCommand(scx.ID(p), &c)
+				}
+				if ok {
+					atomic.AddInt32(&accepted, 1)
+				}
+			}(p)
+		}
+		close(start)
+		wg.Wait()
+		rec.take()
+		switch {
+		case accepted == 0:
+			never++
+		case accepted > 1:
+			twice++
+			if int(accepted) > worst {
+				worst = int(accepted)
+			}
+		}
+	}
+	return
+}
+
 func coqCache(es []entryObs) string {
 	it := make([]string, len(es))
 	for i, e := range es {
@@ -300,13 +366,37 @@ func TestVerif(t *testing.T) {
 		coq = append(coq, "mkfcase "+vh.CoqList(it))
 	}
 
+	runStress := func(rounds, neighbours int) {
+		cs := &caseSpec{Scenario: "concurrent-delivery", Rounds: rounds, Neighbours: neighbours}
+		var twice, never, worst int
+		if p := vh.Recover(func() { twice, never, worst = stress(keys, rounds, neighbours) }); p != "" {
+			c.Fail("panic", p, cs)
+			return
+		}
+		c.Case(fmt.Sprintf("stress/%d/%d", rounds, neighbours), true, cs)
+		c.Count("stress-rounds")
+		coq = append(coq, "mkfcase []")
+		c.Res.Extra["stress_rounds"] = rounds
+		if twice > 0 {
+			c.Fail("concurrent-delivery-accepted-twice", fmt.Sprintf("%d of %d signed commands were accepted more than once (worst: %d times) when handed in by %d neighbours at the same moment", twice, rounds, worst, neighbours), cs)
+		}
+		if never > 0 {
+			c.Fail("genuine-command-never-accepted", fmt.Sprintf("%d of %d genuine commands were accepted by no handler", never, rounds), cs)
+		}
+	}
+
 	if c.Replay != "" {
 		var cs caseSpec
 		if err := c.ReadReplay(&cs); err != nil {
 			t.Fatal(err)
 		}
-		do(&cs)
+		if cs.Scenario != "" {
+			runStress(cs.Rounds, cs.Neighbours)
+		} else {
+			do(&cs)
+		}
 	} else {
+		runStress(c.N(10000, 60000), 8)
 		base := uint64(946684800)
 		// witness 1: command stamped 5 min ahead, acted on, replayed after the entry expired but inside the window
 		w1 := &scx.CmdSpec{Kind: "sleep", Origin: 10, ID: 1, Sig: "valid", TsAbs: u64p(base + 300)}
